@@ -1,1 +1,21 @@
-(* placeholder *)
+(* C13 — setup and dispose reach every system once. Statements only; proofs in VisitProps.v
+   (visit lists) and SysDataProps.v (what setup does to the world). *)
+From Shred Require Import Base SrcParams Plan PlanObs PlanLemmas PlanInv PlanLoc PlanBuild PlanProps Visit VisitProps.
+From Coq Require Import Permutation.
+
+(* [visits rs]: the systems whose hook Dispatcher::setup (resp. ::dispose) calls, in call
+   order — stages front to back, groups, members, a batch member standing for the visits of
+   its inner dispatcher, then the thread-local systems.  For every program that is well formed
+   at every depth this list is a permutation of ALL systems of the program (ordinary,
+   thread-local, inside batches at any depth): each exactly once, none missed. *)
+Theorem C13_setup_and_dispose_visit_every_system_once :
+  forall rs, wf_level rs -> Permutation (visits rs) (leaf_tags rs).
+Proof. exact visits_perm. Qed.
+Print Assumptions C13_setup_and_dispose_visit_every_system_once.
+
+Example C13_example :
+  let rs := [RTL 9; RSys 1 [] [] [] [8] 3%Z;
+             RBatch 2 [] [] [] [] 5%Z 2 [RSys 3 [] [] [8] [] 3%Z; RTL 7; RBatch 4 [] [] [] [] 5%Z 1 [RSys 5 [] [] [] [] 1%Z]];
+             RSys 6 [] [] [8] [] 3%Z] in
+  visits rs = [1; 3; 5; 7; 6; 9]%N /\ leaf_tags rs = [9; 1; 3; 7; 5; 6]%N.
+Proof. split; vm_compute; reflexivity. Qed.
